@@ -156,8 +156,7 @@ def run(ctx):
             if i % 400 == 0:
                 ctx.sample(dict(desc, max_phase_gap=got, ref=want, where=where, periods_spanned=gotp))
         except Exception as e:
-            import traceback
-            ctx.violation("raises", "diagnostic raised %r" % (e,), dict(index=i, tb=traceback.format_exc()[-600:]))
+            ctx.exception(e, "diagnostic", dict(index=i))
 
     # ---- MAP_sample
     nm = ctx.n(400, 3000)
@@ -189,4 +188,4 @@ def run(ctx):
                               % (int(idx), float(post[int(idx)]), float(post.max())),
                               dict(index=j, N=N, lp=lp[:10], ll=ll[:10]))
         except Exception as e:
-            ctx.violation("raises", "MAP_sample raised %r" % (e,), dict(index=j, N=N))
+            ctx.exception(e, "MAP_sample", dict(index=j, N=N))
